@@ -19,6 +19,7 @@
 //       csync:<ms>[:dead] connectSync (to the first listener / to a dead port)    mode:<nth>:<sync|async|disabled>
 //       recv:<nth>:<len>:<ms>   receiveSync
 //       waitn:<n>         spin (schedule points) until n sessions have been announced
+//       gauge:<n>         spin until the open-sessions gauge equals n (bounded), then log it
 //       waitflag:<f> setflag:<f>
 //       stop   start   (repeated cycles)   drop (release this thread's shared_ptr)
 //       cbstop            arm: the next close callback calls stop() on the I/O thread (do not combine with cbdrop)
@@ -31,7 +32,7 @@
 //   ConnCall{t} ConnRet{t,ok,s,af}  SendCall{t,s} SendRet{t,s,ok,af}  CloseCall{t,s} CloseRet{t,s,ok,af}
 //   SyncConnCall{t,to} SyncConnRet{t,ok,s,af}  ModeCall{t,s} ModeRet{t,s,ok}  RecvCall{t,s,to} RecvRet{t,s,ok,n,af}
 //   ListenCall{t} ListenRet{t,ok,af}                          af = the call BEGAN after such a stop() had returned
-//   LifeCall{t,op} LifeRet{t,op,ok}   End{outcome,stuck,steps,bw}    bw = write() calls that hit a closed descriptor
+//   Gauge{t,g,want}   LifeCall{t,op} LifeRet{t,op,ok}   End{outcome,stuck,steps,bw}    bw = write() calls that hit a closed descriptor
 #include "iora/network/transport.hpp"
 #include "iora/network/transport_impl.hpp"
 #include "vf/exec.hpp"
@@ -266,6 +267,21 @@ static void appOps(World *w, const ThreadProg &tp)
       }
       else
         close(fd);
+      continue;
+    }
+    if (op == "gauge")
+    {
+      // let the engine settle (schedule points), then sample the open-sessions gauge: it must have reached <n>
+      long want = atol(o.f[1].c_str());
+      long g = -1;
+      if (t)
+        for (int spins = 0; spins < 400; ++spins)
+        {
+          g = (long)t->getStats().sessionsCurrent;
+          if (g == want) break;
+          sched_yield();
+        }
+      w->tr.add(vf::Ev("Gauge").str("t", tp.name).i("g", g).i("want", want));
       continue;
     }
     if (op == "cbdrop")
